@@ -70,7 +70,8 @@ __CPROVER_assigns(g_nresult);
 //@sub /self->rect_\.IsEmpty\(\)/Rect_IsEmpty(&self->rect_)/
 //@sub /self->rect_\.(Intersects|Contains)\(/Rect_\1(&self->rect_, / min=2
 //@sub /\.data\[vf_i_path\]\)\.size\(\)/.data[vf_i_path]).size/
-//@sub /\(self->edges_\.data\[vf_i_edge\]\)\.clear\(\)/(self->edges_.data[vf_i_edge]).size = 0/
+//@sub /\(self->edges_\.data\[vf_i_edge\]\)\.clear\(\)/(self->edges_.data[vf_i_edge]).size = 0/ min=0
+//@sub /\bedge\.clear\(\)/edge.size = 0/ min=0
 __CPROVER_requires(__CPROVER_is_fresh(self, sizeof(*self)) && paths.size < ((size_t)1 << 40) && __CPROVER_is_fresh(paths.data, paths.size * sizeof(VTok)))
 __CPROVER_requires(self->edges_.size == 8 && SCRATCH_EMPTY(self) && g_fate == 0 && !g_nresult)
 __CPROVER_requires(g_p < paths.size)
